@@ -147,7 +147,8 @@ def check_run(run: Run, prog: Program) -> None:
         wit = None
     run.check(wit is None, "C14.LATEST", fn.qual, f"{PEND}[{key}] = {rv}",
               "while a task is in flight an incoming request can be dropped without being recorded "
-              "as the pending one", node=g.ast, file=fn.file, path=cfg.describe_path(wit))
+              "as the pending one", node=g.ast, file=fn.file, path=cfg.describe_path(wit),
+              instance=f"{fn.qual}: in flight -> the incoming request is recorded as pending on every path")
     # free side: start now, with this request
     wit = cfg.path([m for m, lab in cfg.succ[g.id] if lab == out_lab][0], [h.id], avoid=procs)
     if [m for m, lab in cfg.succ[g.id] if lab == out_lab][0] in procs:
